@@ -218,7 +218,8 @@ def rule_helper(chk):
 """
     try:
         it0 = EM.interpreter()
-        h0 = EM.instance(it0, IH, 'IntegratorCythonHelper', object=EM.mock(one_timestep=EM.func(MODEL)))
+        kls = EM.mock(__name__='ModelIntegrator', __qualname__='ModelIntegrator', __module__='model')
+        h0 = EM.instance(it0, IH, 'IntegratorCythonHelper', object=EM.mock(one_timestep=EM.func(MODEL), __class__=kls))
         text = EM.call(it0, h0, 'get_timestep_code')
         body = MODEL.strip('\n').splitlines(True)[2:]
         want = textwrap.dedent(''.join(body))
@@ -229,6 +230,19 @@ def rule_helper(chk):
         chk.decide(ok, 'timestep-pasted-verbatim', 'helper', node=tc, file=IH, func='get_timestep_code',
                    detail_bad='for a model one_timestep with a two-line signature the pasted body is %r; expected the unmodified, dedented source lines after the definition: %r'
                               % (text, want), detail_ok="model run: dedent(source lines after the definition), nothing edited")
+        # a second integrator class of the same name, in the same process, must get its own schedule (nothing remembered between helpers)
+        MODEL2 = MODEL.replace('self.stage1()', 'self.stage2()').replace('range(2)', 'range(3)')
+        kls2 = EM.mock(__name__='ModelIntegrator', __qualname__='ModelIntegrator', __module__='model')
+        h1 = EM.instance(it0, IH, 'IntegratorCythonHelper', object=EM.mock(one_timestep=EM.func(MODEL2), __class__=kls2))
+        text2 = EM.call(it0, h1, 'get_timestep_code')
+        want2 = textwrap.dedent(''.join(MODEL2.strip('\n').splitlines(True)[2:]))
+        try:
+            ok2 = isinstance(text2, str) and ast.dump(ast.parse(text2)) == ast.dump(ast.parse(want2))
+        except SyntaxError:
+            ok2 = False
+        chk.decide(ok2, 'timestep-pasted-verbatim', 'helper-is-stateless', node=tc, file=IH, func='get_timestep_code',
+                   detail_bad='a second integrator class (same class name, different one_timestep) handled after the first one gets %r: the pasted body must come from the '
+                              'integrator at hand, not from anything remembered from an earlier one' % text2, detail_ok='second model integrator of the same name gets its own body')
     except (AI.Unsupported, AI.Raised) as e:
         chk.undecided('timestep-pasted-verbatim', 'helper', node=tc, file=IH, func='get_timestep_code', detail='generator not interpretable on the model integrator: %s' % e)
     # what the generators emit for a generic integrator with two destinations whose steppers differ
